@@ -206,6 +206,13 @@ func main() {
 					}
 				}
 			}
+			// no ballast, ten removable keys, one value: every subset of the keys in every reachable
+			// structure, so that trie nodes also SHRINK below each threshold (a branch that is left as
+			// the only child beside a removed leaf, a hash-array node falling back, ...)
+			for _, hn := range []string{"identity", "level2", "high-bits", "pairs-collide"} {
+				cfg := hamt.Config{Kind: kind, Hasher: hamt.HasherByName(hn), Ballast: 0, Active: []int{0, 1, 2, 3, 4, 5, 6, 32, 64, 33}, Values: []int{1}, Start: "updated", ShrinkOnly: true, Model: true}
+				r.Seq("search/"+cfg.Name(), func(x *mc.X) { hamt.Search(x, cfg) }).NoShard = true
+			}
 			for _, b := range []int{0, 3} {
 				cfg := hamt.Config{Kind: kind, Hasher: hamt.HasherByName("identity"), Ballast: b, Active: act, Values: []int{1, 2}, Start: "zero", Model: true}
 				r.Seq("search/"+cfg.Name(), func(x *mc.X) { hamt.Search(x, cfg) }).NoShard = true
